@@ -361,15 +361,10 @@ def check_deterministic(ctx):
         args = [src(x).replace(' ', '') for x in c.args]
         if args[0] not in ('__addr__(results[%s,0])' % v,) or args[1] != 'timepoints[%s]' % v or args[2] not in ('True', '1'):
             problems.append('rows re-ruled with arguments %s' % args)
-        # guarded only by success and number of rules
-        g = lp._parent
-        conds = []
-        while g is not f:
-            if isinstance(g, ast.If):
-                conds.append(src(g.test).replace(' ', ''))
-            g = g._parent
-        if sorted(conds) != sorted(['success', 'sim.get_number_of_rules()>0']):
-            problems.append('re-application guarded by %s' % conds)
+        # executed exactly when the integration succeeded and the model has rules
+        conds = util.guards_of(lp, f)
+        if conds != {'success', '0<sim.get_number_of_rules()'}:
+            problems.append('re-application guarded by %s' % sorted(conds))
     ctx.ob('R9.5-deterministic', 'rows', not problems, ctx.loc('simulator', f),
            'after a successful integration every output row i is re-ruled at timepoints[i] when the model has rules', '; '.join(problems))
 
